@@ -720,16 +720,24 @@ func EvalFunction(env *Zlisp, name string, args []Sexp) (Sexp, error) {
 	orig := &SexpArray{Val: args}
 	sfun := env.MakeFunction("evalGeneratedFunction", 0, false, newfunc, orig)
 
+	// The evaluation is a nested run: whoever asked for it (a builtin
+	// under the VM, but also a host calling Apply on an idle interpreter,
+	// or the printing of a selector whose key is code) finds the
+	// interpreter where it left it, whether the evaluation fails or not.
+	callState := env.captureControlState()
 	err = env.CallFunction(sfun, 0)
 	if err != nil {
+		env.restoreControlState(callState)
 		return SexpNull, err
 	}
 
 	var resultSexp Sexp
 	resultSexp, err = env.Run()
 	if err != nil {
+		env.restoreControlState(callState)
 		return SexpNull, err
 	}
+	env.restoreControlState(callState)
 
 	// some sanity checks
 	if env.datastack.Size() > startingDataStackSize {
